@@ -416,6 +416,9 @@ class Interp:
             if is_sym(k):
                 self.event('store-sym-index', (k, _hashable(v)), node)
                 return
+            if getattr(self, 'strict_store_bounds', False) and isinstance(k, int) and not 0 <= k < len(c):
+                n_ = node if node is not None else getattr(self, 'cur_node', None)
+                raise OutOfBounds('write of element %d of a %d-element array at %s' % (k, len(c), astdb.loc_str(n_) if n_ else '?'))
             while len(c) <= k:
                 c.append(0)
             c[k] = v
